@@ -29,8 +29,10 @@ Definition x_v_int := MValues.v_int.
 Definition x_decode := Spec6809.decode.
 Definition x_canon := Spec6809.canon.
 Definition x_regpair_legal := Spec6809.regpair_legal.
+Definition x_opcode_entry := Spec6809.opcode_entry.
+Definition x_all_opcodes := Spec6809.all_opcodes.
 
 Extraction "model.ml"
-  x_asm x_v_int x_decode x_canon x_regpair_legal
+  x_asm x_v_int x_decode x_canon x_regpair_legal x_opcode_entry x_all_opcodes
   x_cas_write x_cas_parse x_cas_list
   x_dsk_add x_dsk_image x_dsk_fsck x_dsk_files x_dsk_list x_dsk_free x_dsk_needed x_dsk_default_order x_dsk_layout_ok.
